@@ -89,6 +89,25 @@ func RevertSiblings() []byte {
 	return modeTail(c, 0)
 }
 
+// RevertThree is the code of a top frame that makes three calls in a row and returns what they returned.
+// call data = three descriptors [gas][target][len][payload (len bytes)]; return data = for each call the success
+// flag and the first 32 bytes it returned ([s1][r1][s2][r2][s3][r3]).  It never fails itself.
+func RevertThree() []byte {
+	const DUP3, DUP7, DUP8, PUSH2 = 0x82, 0x86, 0x87, 0x61
+	c := []byte{asm.PUSH1, 0} // offset of the first descriptor
+	for i := 0; i < 3; i++ {
+		flagOff := 0x400 + 64*i
+		outOff := flagOff + 32
+		c = append(c, asm.DUP1, asm.PUSH1, 64, asm.ADD, asm.CALLDATALOAD)                                    // [off, len]
+		c = append(c, asm.DUP1, DUP3, asm.PUSH1, 96, asm.ADD, asm.PUSH1, 0, asm.CALLDATACOPY)                // payload -> memory 0
+		c = append(c, asm.PUSH1, 32, PUSH2, byte(outOff>>8), byte(outOff), DUP3, asm.PUSH1, 0, asm.PUSH1, 0) // out 32 @outOff, in len @0, value 0
+		c = append(c, DUP7, asm.PUSH1, 32, asm.ADD, asm.CALLDATALOAD, DUP8, asm.CALLDATALOAD, asm.CALL)
+		c = append(c, PUSH2, byte(flagOff>>8), byte(flagOff), asm.MSTORE) // success flag
+		c = append(c, asm.ADD, asm.PUSH1, 96, asm.ADD)                    // next descriptor
+	}
+	return append(c, asm.PUSH1, 192, PUSH2, 0x04, 0x00, asm.RETURN)
+}
+
 // RvVector is one vector of RevertTree.tla.
 type RvVector struct {
 	ID      int      `json:"id"`
@@ -226,6 +245,8 @@ func (w *CtWorld) RunRevertVector(v RvVector, pre map[string]string) (trace.M, m
 		data = append(append(append(data, u(rvLeafGas)...), AddrWord(l2.target)...), l2.data...)
 		to = root.Addr
 		txGas = uint64(2*rvLeafGas + 2*rvFrameGas + 150_000)
+	case "memo":
+		return w.runMemoVector(v, pre)
 	default:
 		panic("unknown vector shape " + v.Shape)
 	}
@@ -276,7 +297,7 @@ func RunRevertTree(out *trace.W, vectorsPath string, seed int64, shard, shards i
 	}
 	defer f.Close()
 	var vs []RvVector
-	depth := 2
+	depth := 3
 	sc := bufio.NewScanner(f)
 	sc.Buffer(make([]byte, 1<<20), 1<<26)
 	for sc.Scan() {
@@ -297,7 +318,7 @@ func RunRevertTree(out *trace.W, vectorsPath string, seed int64, shard, shards i
 	}
 	rand.New(rand.NewSource(seed*977+int64(shard))).Shuffle(len(vs), func(i, j int) { vs[i], vs[j] = vs[j], vs[i] })
 	obs.Install()
-	w := NewCtWorldWith(depth, RvKinds, RevertFrame, map[string][]byte{"two": RevertSiblings()})
+	w := NewCtWorldWith(depth, RvKinds, RevertFrame, map[string][]byte{"two": RevertSiblings(), "three": RevertThree()})
 	pre := w.Dump()
 	for _, v := range vs {
 		ev, post := w.RunRevertVector(v, pre)
@@ -361,4 +382,108 @@ func rvObserved(shape string, execs []*obs.Exec) (frames []string, leaves []stri
 		frames = append(frames, rvExit(f))
 		f = f.Children[0]
 	}
+}
+
+// runMemoVector: shape "memo" of RevertTree.tla.  ONE transaction, three calls of the top frame:
+//
+//	kinds[0] = "approve": (1) a chain of CALL frames (modes = v.Modes, at most one "revert") whose last frame - the owner -
+//	          calls approve(top frame, n); (2) allowance(owner, top frame); (3) the top frame itself calls
+//	          transferFrom / burnFrom (methods[0]) for an amount only the new allowance covers.
+//	kinds[0] = "spent":   (1) the chain's last frame - a spender with a large allowance from the Owner EOA - spends a and the
+//	          chain possibly reverts; (2) allowance(Owner, spender); (3) the same chain, all frames completing, spends b.
+func (w *CtWorld) runMemoVector(v RvVector, pre map[string]string) (trace.M, map[string]string) {
+	c := w.C
+	d := len(v.Modes)
+	top := w.Extra["three"]
+	last := w.Fwd[d][KCall] // chain frames are Fwd[1..d][CALL]
+	recv := common.BigToAddress(big.NewInt(0xabcd10))
+	chain_ := func(modes []string, leaf []byte) (common.Address, int64, []byte) {
+		payload, target, gas := leaf, w.Erc20, int64(rvLeafGas)
+		for i := d; i >= 1; i-- {
+			payload = append(append(append(AddrWord(target), u(gas)...), u(revertModes[modes[i-1]])...), payload...)
+			target = w.Fwd[i][KCall].Addr
+			gas = rvLeafGas + rvFrameGas*int64(d-i+1)
+		}
+		return target, gas, payload
+	}
+	desc := func(target common.Address, gas int64, payload []byte) []byte {
+		return append(append(append(u(gas), AddrWord(target)...), u(int64(len(payload)))...), payload...)
+	}
+	spend := func(owner common.Address, amt int64) []byte {
+		if v.Methods[0] == "burnFrom" {
+			return Enc("burnFrom(address,uint256)", AddrWord(owner), u(amt))
+		}
+		return Enc("transferFrom(address,address,uint256)", AddrWord(owner), AddrWord(recv), u(amt))
+	}
+	quantity := func() *big.Int {
+		if v.Methods[0] == "burnFrom" {
+			return new(big.Int).Neg(c.Supply(chain.Denom))
+		}
+		return c.Bal(recv, chain.Denom)
+	}
+	allOk := make([]string, d)
+	for i := range allOk {
+		allOk[i] = "ok"
+	}
+	var owner, spender common.Address
+	var data []byte
+	var n, a, b int64
+	switch v.Kinds[0] {
+	case "approve":
+		owner, spender = last.Addr, top.Addr
+	case "spent":
+		owner, spender = w.Owner.Addr, last.Addr
+	default:
+		panic("unknown memo case " + v.Kinds[0])
+	}
+	allowance := func() *big.Int { return c.App.CPCKeeper.GetErc20CpcAllowance(c.Ctx(), owner, spender) }
+	pre0 := allowance()
+	view := Enc("allowance(address,address)", AddrWord(owner), AddrWord(spender))
+	if v.Kinds[0] == "approve" {
+		n, a = pre0.Int64()+10, pre0.Int64()+5
+		t1, g1, p1 := chain_(v.Modes, Enc("approve(address,uint256)", AddrWord(spender), u(n)))
+		data = append(append(desc(t1, g1, p1), desc(w.Erc20, rvLeafGas, view)...), desc(w.Erc20, rvLeafGas, spend(owner, a))...)
+	} else {
+		a, b = 3, 4
+		t1, g1, p1 := chain_(v.Modes, spend(owner, a))
+		t3, g3, p3 := chain_(allOk, spend(owner, b))
+		data = append(append(desc(t1, g1, p1), desc(w.Erc20, rvLeafGas, view)...), desc(t3, g3, p3)...)
+	}
+	q0 := quantity()
+	r := SendEth(c, w.Sender, top.Addr, data, uint64(2*(rvLeafGas+rvFrameGas*int64(d))+rvLeafGas+300_000))
+	if r.Panic != nil || !r.Admitted {
+		panic(fmt.Sprintf("vector %d: block failed or transaction not admitted: %v %d %s", v.ID, r.Panic, r.Code, r.Log))
+	}
+	post := w.Dump()
+	df := Diff(pre, post)
+	flags, viewVal := []int64{-1, -1, -1}, int64(-1)
+	if len(r.Ret) == 192 {
+		for i := 0; i < 3; i++ {
+			flags[i] = new(big.Int).SetBytes(r.Ret[64*i : 64*i+32]).Int64()
+		}
+		viewVal = trace.I(new(big.Int).SetBytes(r.Ret[96:128]))
+	}
+	logs := []string{}
+	for _, lg := range r.Logs {
+		k := "other"
+		if len(lg.Topics) > 0 {
+			if nm, ok := rvTopics[lg.Topics[0]]; ok {
+				k = nm
+			}
+		}
+		logs = append(logs, k)
+	}
+	st := int64(0)
+	if r.HasRcpt && r.Status == 1 {
+		st = 1
+	}
+	sample := df
+	if len(sample) > 5 {
+		sample = sample[:5]
+	}
+	return trace.M{"ev": "Vector", "id": v.ID, "shape": v.Shape, "kinds": v.Kinds, "modes": v.Modes, "methods": v.Methods,
+		"callers": []string{last.Name, top.Name}, "status": st, "changed": len(df) > 0, "nchanged": len(df), "effects": []bool{}, "logs": logs,
+		"gasUsed": r.GasUsed, "frames": []string{}, "leafExit": []string{}, "vmError": trunc(r.VmError, 60), "sample": append([]string{}, sample...),
+		"pre": trace.I(pre0), "n": n, "a": a, "b": b, "flags": flags, "view": viewVal, "final": trace.I(allowance()),
+		"moved": trace.I(new(big.Int).Sub(quantity(), q0))}, post
 }
